@@ -14,6 +14,8 @@ import (
 
 func init() {
 	register(&Property{ID: "C27", Run: runC27, Mutants: []Mutant{
+		{Name: "generic-method lookup no longer compares the receiver type", File: "internal/types/resolver.go", Old: "\t\t\tif fn.RecvTypeName() != recvTypeName {\n\t\t\t\tcontinue\n\t\t\t}\n", New: "\t\t\tif fn.RecvTypeName() == \"\" || recvTypeName == \"\" {\n\t\t\t\tcontinue\n\t\t\t}\n", Expect: "first-match-is-unique"},
+		{Name: "package globals sorted case-insensitively", File: "internal/backends/compiler_wat/compile.go", Old: "\tsort.Strings(memnames)\n", New: "\tsort.Slice(memnames, func(i, j int) bool { return strings.ToLower(memnames[i]) < strings.ToLower(memnames[j]) })\n", Nth: 2, Expect: "sort-key-unique"},
 		{Name: "methods are entered into the object map without an order number", File: "internal/types/resolver.go", Old: "\t\t\t\tcheck.objMap[obj] = info\n\t\t\t\tobj.setOrder(uint32(len(check.objMap)))", New: "\t\t\t\tcheck.objMap[obj] = info\n\t\t\t\tif d.Recv == nil {\n\t\t\t\t\tobj.setOrder(uint32(len(check.objMap)))\n\t\t\t\t}", Expect: "object-order-total"},
 		{Name: "method sets sorted by a non-unique key", File: "internal/types/methodset.go", Old: "return list[i].obj.Id() < list[j].obj.Id()", New: "return list[i].obj.Name() < list[j].obj.Name()", Expect: "sort-key-unique :: internal/types.NewMethodSet"},
 		{Name: "embed lookup matches by suffix (several entries can match)", File: "internal/types/embed.go", Old: "if k == commentInfo.Embed {", New: "if k == commentInfo.Embed || (len(k) > len(commentInfo.Embed) && k[len(k)-len(commentInfo.Embed):] == commentInfo.Embed) {", Expect: "map-order :: (*internal/types.Checker).processGlobalEmbed: range f.EmbedMap"},
@@ -565,6 +567,10 @@ func runC27(c *Ctx) {
 		case "order-escaping":
 			if why, ok := c27Exceptions[s.key]; ok {
 				c.OK(rMap, s.key, loc, "exception: "+why)
+				// exceptions that rest on "at most one element matches" have that re-read from the test
+				if pk := p.All[s.fn.Pkg.Pkg.Path()]; pk != nil {
+					c27CheckUniqueMatch(c, p, pk.TypesInfo, s.rs, s.key, loc)
+				}
 			} else {
 				c.Fail(rMap, s.key, loc, "iteration order of this map can reach the output: "+s.why+"; call path: "+short(CallPath(pred, s.fn)))
 			}
